@@ -27,7 +27,7 @@ fn c16_reg_for_no() {
 }
 
 #[kani::proof]
-#[kani::unwind(8)]
+#[kani::unwind(29)]
 fn c16_prepare() {
     let n: usize = kani::any();
     kani::assume(n <= 6);
